@@ -74,6 +74,21 @@ def norm(v):
     return (v["k"], tuple(v["s"]))
 
 
+NUMTOK = re.compile(r"-?[0-9]+(\.[0-9]+)?([eE][+-]?[0-9]+)?$")
+
+
+def csv_cell_ok(v, cell):
+    if v["k"] == 2 and txt(v["s"]) not in ("NaN", "inf", "-inf"):
+        return bool(NUMTOK.match(txt(cell))) and num_canon(cell) == num_canon(v["s"])
+    return cell == display(v)
+
+
+def csv_rows_ok(hdr, rows, got):
+    if len(got) != len(rows) + 1 or got[0] != hdr:
+        return False
+    return all(len(g) == len(r) and all(csv_cell_ok(v, c) for v, c in zip(r, g)) for r, g in zip(rows, got[1:]))
+
+
 def judge(case, fmt, side, rows=None):
     """None if the output round-trips, else a reason."""
     rows = case["rows"] if rows is None else rows
@@ -85,7 +100,7 @@ def judge(case, fmt, side, rows=None):
         if side["mode"] != "RecordEnd":
             return f"CSV is malformed under RFC 4180 (reader left {side['from']} at character {side['bad_at']})"
         exp = [case["hdr"]] + [[display(v) for v in row] for row in rows]
-        if side["rows"] != exp:
+        if not csv_rows_ok(case["hdr"], rows, side["rows"]):
             return f"CSV reads back as {[[txt(c) for c in r] for r in side['rows']]!r}, displayed cells are {[[txt(c) for c in r] for r in exp]!r}"
         return None
     if side["mode"] == "Unsupported":
@@ -111,7 +126,15 @@ NULLV = {"k": 0, "s": []}
 
 
 def py_float_token(x):
-    return repr(float(x))
+    """the shortest round-trip decimal of x in positional notation (what Rust's Display prints): 87.0 -> 87, 1e-7 -> 0.0000001"""
+    from decimal import Decimal
+    x = float(x)
+    t = format(Decimal(repr(x)), "f")
+    if "." in t:
+        t = t.rstrip("0").rstrip(".")
+    if t in ("", "-"):
+        t += "0"
+    return t
 
 
 def hand_cases():
@@ -123,7 +146,8 @@ def hand_cases():
          "rows": [[N("-9223372036854775808"), N("18446744073709551615"), N("-2147483648")],
                   [N("9223372036854775807"), N("0"), NULLV]]},
         {"hdr": [cps("f"), cps("g")], "types": [3, 8],
-         "rows": [[N("1e300"), N("1.5")], [N("5e-324"), N("0.1")], [N("-0.0"), NULLV], [N("0.30000000000000004"), N("-3.4028235e38")],
+         "rows": [[N(py_float_token(1e300)), N("1.5")], [N(py_float_token(5e-324)), N("0.1")], [N("-0"), NULLV],
+                  [N("0.30000000000000004"), N("-340282350000000000000000000000000000000")],
                   [N("123456789.125"), N("16777216")]]},
         {"hdr": [cps("f")], "types": [3], "rows": [[N("inf")], [N("NaN")], [N("2.5")]]},
         {"hdr": [cps("s")], "types": [1], "rows": [[S("\U0001F600 \u2028 \ufeff\x7f")], [S("\x00")], [S(' a ')], [S('"')], [S('""')], [S('","')],
@@ -192,12 +216,14 @@ def replay_cases(ctx, cases, tag):
     return outs
 
 
-def tlc_judge(ctx, items, opened, tag):
-    """items: [(case, fmt, chars)] -> [(verdict, info)] by CsvTrace.tla."""
+def tlc_judge(ctx, items, opened, tag, stepwise=0):
+    """items: [(case, fmt, chars)] -> [(verdict, info)] by CsvTrace.tla.  The first `stepwise` items are consumed one
+    TLC action per character, the others by folding the same step operator inside one action."""
     if not items:
         return [], vlib.TlcResult()
     path = os.path.join(ctx.work, f"{tag}.trace.ndjson")
-    write_ndjson(path, [{"open": opened}] + [{"fmt": f, "hdr": c["hdr"], "rows": c["rows"], "chars": ch} for c, f, ch in items])
+    write_ndjson(path, [{"open": opened}] + [{"fmt": f, "sw": 1 if i < stepwise else 0, "hdr": c["hdr"], "rows": c["rows"], "chars": ch}
+                                           for i, (c, f, ch) in enumerate(items)])
     res = run_tlc("CsvTrace", "CsvTrace.cfg", workers=1, timeout=3000, env={"TRACE": path}, deque=True, heap="6g", tag=f"C40-{tag}")
     if res.error or not res.ok:
         vlib.log(res.out[-4000:])
@@ -293,7 +319,7 @@ def run(ctx):
     # ---- (M): ideal writer vs reader machines over the whole family; deviations must break it
     box = {}
     def kill():
-        box["kill"] = run_tlc("Csv", "Csv_kill.cfg", workers=3, timeout=1800, tag="C40-kill", coverage=(t == "thorough"))
+        box["kill"] = run_tlc("Csv", "Csv_kill.cfg", workers=2, timeout=1800, tag="C40-kill", coverage=(t == "thorough"))
     th = threading.Thread(target=kill)
     th.start()
     res = run_tlc("Csv", f"Csv_{t}.cfg", workers=6, timeout=3000, heap="8g", tag="C40-main", coverage=(t == "thorough"))
@@ -324,9 +350,10 @@ def run(ctx):
     n_tlc = len(cases)
     extra = hand_cases() + random_cases(ctx.seed, 150 if t == "quick" else 3000)
     allc = cases + extra
+    rng = random.Random(ctx.seed)
     # ---- (R) primary route: the real OutputFormatter
     outs = replay_cases(ctx, allc, "cases")
-    judged, passing = [], []
+    failing, extras_ok, passing = [], [], []
     for i, r in enumerate(outs):
         for fmt, key in ((1, "csv"), (2, "json")):
             side = r[key]
@@ -337,19 +364,10 @@ def run(ctx):
             if "panic" in side or side.get("utf8") == 0:
                 ctx.violation({"case": slim_case(r), "fmt": fmt, "source": "formatter", "observed": side}, why)
                 continue
-            (judged if why or i >= n_tlc else passing).append((r, fmt, side, why))
-    # ---- (V): TLC reads the real characters.  quick: every failing output, every extra case, a sample of the rest
-    rng = random.Random(ctx.seed)
-    if t == "quick":
-        rng.shuffle(passing)
-        judged += passing[:400]
-    else:
-        judged += passing
-    verdicts, tres = tlc_judge(ctx, [(c, f, s["chars"]) for c, f, s, _ in judged], opened, "formatter")
-    ctx.tlc_stats(tres, f"CsvTrace: {len(judged)} real outputs of OutputFormatter read character by character")
-    settle(ctx, judged, verdicts, opened, "formatter")
-    ctx.set("formatter_outputs_failing_python_judge", sum(1 for j in judged if j[3]))
-    # ---- (R) secondary route: the real shell binary
+            (failing if why else extras_ok if i >= n_tlc else passing).append((r, fmt, side, why, "formatter"))
+    ctx.set("formatter_outputs", 2 * len(outs))
+    ctx.set("formatter_outputs_failing", len(failing))
+    # ---- (R) secondary route: the real shell binary over piped stdin
     pool = [c for c in cases if all(len(h) > 0 for h in c["hdr"])]
     rng.shuffle(pool)
     sample = pool[:40 if t == "quick" else 500] + [c for c in hand_cases() if c["rows"] and "split" not in c][:6]
@@ -357,36 +375,53 @@ def run(ctx):
     if len(got) < len(sample):      # of 2 * len(sample) statements
         raise vlib.ToolError(f"the shell answered only {len(got)} of {2 * len(sample)} statements: {stderr[-500:]}")
     sides = parse_outputs(ctx, got, "shell")
-    prim = {}
-    for r in replay_cases(ctx, sample, "shellref"):
-        prim[vlib.chash(slim_case(r))] = r
-    sj = []
-    same = 0
-    for (c, fmt, chars, _), side in zip(got, sides):
+    # the shell's SELECT * may name the columns t.c: both namings are the "displayed" header
+    qual = [dict(c, hdr=[cps(f"t{i}.") + h for h in c["hdr"]]) for i, c in enumerate(sample)]
+    ref = replay_cases(ctx, sample + qual, "shellref")
+    shell = []
+    same = nq = 0
+    for (c, fmt, chars, i), side in zip(got, sides):
         ctx.add("evaluations")
-        ref = prim[vlib.chash(slim_case(c))]["csv" if fmt == 1 else "json"].get("chars")
-        if ref == chars:
-            same += 1
-        why = judge(c, fmt, side)
-        case = c
-        if why and len(c["rows"]) == 2 and judge(c, fmt, side, rows=c["rows"][::-1]) is None:
-            ctx.notes.append("fidelity: the shell returned the two rows of a table in the other order")
-            case, why = dict(c, rows=c["rows"][::-1]), None
-        sj.append((case, fmt, side, why))
-    sverd, sres = tlc_judge(ctx, [(c, f, s["chars"]) for c, f, s, _ in sj], opened, "shell")
-    ctx.tlc_stats(sres, f"CsvTrace: {len(sj)} outputs captured from the stdout of the shell binary")
-    settle(ctx, sj, sverd, opened, "shell")
+        key = "csv" if fmt == 1 else "json"
+        cand = [(c, ref[i]), (qual[i], ref[len(sample) + i])]
+        verdicts_ = []
+        for cc, rr in cand:
+            why = judge(cc, fmt, side)
+            if why and len(cc["rows"]) == 2 and judge(cc, fmt, side, rows=cc["rows"][::-1]) is None:
+                ctx.notes.append("fidelity: the shell returned the two rows of a table in the other order")
+                cc, why = dict(cc, rows=cc["rows"][::-1]), None
+            verdicts_.append((cc, why, rr[key].get("chars") == chars))
+        # prefer a naming under which the output round-trips; else the one whose formatter output it equals; else qualified
+        pick = next((v for v in verdicts_ if v[1] is None), None) or next((v for v in verdicts_ if v[2]), None) or verdicts_[1]
+        same += 1 if pick[2] else 0
+        nq += 1 if pick[0] is not c and pick[0]["hdr"] != c["hdr"] else 0
+        shell.append((pick[0], fmt, side, pick[1], "shell"))
     ctx.set("shell_statements_captured", len(got))
     ctx.set("shell_statements_skipped_engine_error", skipped)
     ctx.set("shell_outputs_identical_to_formatter", same)
+    ctx.set("shell_outputs_with_qualified_column_names", nq)
     if same < len(got) // 2:
         ctx.notes.append(f"fidelity: only {same} of {len(got)} shell outputs are byte-identical to OutputFormatter::write on the same table")
+    # ---- (V): TLC reads the real characters.  Every failing output, every extra case, every shell output;
+    # of the passing TLC-family outputs a sample in quick, all in thorough.  The first ones one action per character.
+    if t == "quick":
+        rng.shuffle(passing)
+        passing = passing[:500]
+    step = shell[:30] + failing[:40] + passing[:30]
+    rest = shell[30:] + failing[40:] + passing[30:] + extras_ok
+    judged = step + rest
+    verdicts, tres = tlc_judge(ctx, [(c, f, sd["chars"]) for c, f, sd, _, _ in judged], opened, "outputs", stepwise=len(step))
+    ctx.tlc_stats(tres, f"CsvTrace: {len(judged)} real outputs (formatter and shell) read by the reference machines, {len(step)} of them one state per character")
+    for src in ("formatter", "shell"):
+        idx = [k for k, j in enumerate(judged) if j[4] == src]
+        settle(ctx, [judged[k][:4] for k in idx], [verdicts[k] for k in idx], opened, src)
     # ---- evidence
     nt = {vlib.chash(slim_case(c)) for c in allc if nontrivial(c)}
     ctx.set("distinct_nontrivial", len(nt))
     ctx.set("cases_from_tlc", n_tlc)
     ctx.set("cases_extra", len(extra))
-    ctx.set("traces_validated_against_impl", len(judged) + len(sj))
+    ctx.set("traces_validated_against_impl", len(judged))
+    ctx.set("outputs_read_one_state_per_character", len(step))
     ctx.set("exhaustive", True)
     ctx.set("rule", "TLC enumerates every cell string of length <= MaxLen over {a , \" LF CR TAB \\ e-acute 0x01} as a data cell in the "
             "first/middle/last/only column (first or last row) or as a column NAME, next to filler columns of integers, floats (incl. 87.0, "
@@ -400,9 +435,9 @@ def run(ctx):
     ctx.assumptions += [
         "a CSV record may end in LF or CRLF and the last line break may be missing (the shell writes LF); TEXTDATA is extended to control and non-ASCII characters",
         "NULL is displayed as an empty unquoted CSV field (indistinguishable from an empty string: not a round-trip failure of the displayed text) and as JSON null",
-        "JSON numbers are compared by decimal value (87 = 87.0 = 8.7e1); a non-finite float has no JSON number and must be printed as null; \\u escapes of surrogate pairs are not combined (the shell writes non-ASCII raw)",
+        "numbers are compared by decimal value (87 = 87.0 = 8.7e1) in both formats; a non-finite float has no JSON number and must be printed as null; \\u escapes of surrogate pairs are not combined (the shell writes non-ASCII raw)",
         "column names are distinct (duplicate JSON keys are outside the model); nested/list/date/decimal columns are not explored",
-        "the shell route loads tables from Parquet: tables with an empty column name are left to the formatter route"]
+        "the shell route loads tables from Parquet and accepts the engine's qualified column names (t.c) as the displayed header; tables with an empty column name are left to the formatter route"]
 
 
 def replay(ctx, obj):
